@@ -140,6 +140,22 @@ Theorem C19_async_timeout_spec :
     ((forall id t, In (id, t) (c_members (clk s)) -> c_now (clk s) - t > cf_timeout (cfg s)) /\ c_now (clk s) - c_init (clk s) > cf_timeout (cfg s)).
 Proof. exact async_ok_spec_pf. Qed.
 
+(* ---------- a new manager on the same storage (leader change) with a storage fault at the status load ----------
+   "a storage failure leaves served and persisted state unchanged" / "sync only after a full scan", for the start-up path:
+   the self-initialisation of C19_startup_rule happens only when the load SUCCEEDED and found nothing (skel_LoadReplicationStatus_ok
+   ties the error-before-empty order of core.Storage.LoadReplicationStatus) *)
+Theorem C19_failed_status_load_keeps_everything :
+  forall s f, cf_dr (cfg s) = true -> restart s true f = (s, RErr).
+Proof. exact restart_failed_load_pf. Qed.
+Theorem C19_new_manager_serves_persisted_status :
+  forall s f x s' r, cf_dr (cfg s) = true -> stored s = Some x -> restart s false f = (s', r) ->
+    r = ROk /\ served s' = Some x /\ stored s' = Some x /\ files s' = files s /\ next_id s' = next_id s /\ cur_key s' = "" /\ cur_cnt s' = 0.
+Proof. exact restart_serves_stored_pf. Qed.
+Theorem C19_new_manager_initialises_only_when_nothing_stored :
+  forall s lf f s' r, restart s lf f = (s', r) -> (files s' <> files s \/ next_id s' <> next_id s \/ stored s' <> stored s) ->
+    cf_dr (cfg s) = true /\ lf = false /\ stored s = None.
+Proof. exact restart_initialises_only_when_nothing_stored_pf. Qed.
+
 Print Assumptions C19_async_only_when.
 Print Assumptions C19_recover_only_when.
 Print Assumptions C19_sync_only_after_full_scan.
@@ -156,3 +172,6 @@ Print Assumptions C19_files_have_distinct_ids.
 Print Assumptions C19_file_for_served_id_is_served.
 Print Assumptions C19_startup_rule.
 Print Assumptions C19_async_timeout_spec.
+Print Assumptions C19_failed_status_load_keeps_everything.
+Print Assumptions C19_new_manager_serves_persisted_status.
+Print Assumptions C19_new_manager_initialises_only_when_nothing_stored.
